@@ -28,7 +28,12 @@ package join
 //@   callee Dig(path)
 //@     preserves Plugin
 //@   callee MutateToString(s)
+//@     requires uf_viewref(s) == 0
 //@     preserves Plugin
+
+// (The joined value given to the flushed event is a copy - uf_viewref == 0, see
+// ByteToStringUnsafe in /verif/contracts-lib - never a view of p.buff, which the
+// next run of the stream overwrites while the flushed event is still in flight.)
 
 //@ func (*Plugin).isNextOK
 //@   ghost m bool = false
